@@ -13,8 +13,10 @@ RULE = ('files with 1..5 dimensions of length 1..4 (one may be unlimited), 1..4 
         'shows; selectors over any subset of dimensions in random keyword order: +/- ints, slices with None/+/-/oversized '
         'start/stop/step incl. empty and reversed, index lists with repeats and negative entries, 2..3 equal-length lists (zipped); '
         'targeted streams for int+list separated by a slice axis and zipped+int (the repaired defects); malformed stream (unknown dimension, out-of-range '
-        'int/list element, step 0, unequal list lengths, empty zipped lists); string form slice_dim. Every case is evaluated in Coq '
-        '(model impl_slice_file and spec_slice_file, Corr/C02.v) AND by an independent numpy take/slice oracle in Python. '
+        'int/list element, step 0, unequal list lengths), empty zipped lists; string form slice_dim (as dim=slice(start,stop,stride)) and the '
+        'IOAPI wrapper ioapi_base.sliceDimensions (4-d/2-d float32 variables over TSTEP,LAY,ROW,COL, non-empty selections incl. zipped ROW/COL; '
+        'data part only). Every case is evaluated in Coq (model impl_slice_file and spec_slice_file, Corr/C02.v) AND by an independent numpy '
+        'take/slice oracle in Python. '
         'Non-trivial = the call succeeded and at least one variable changed shape or cells.')
 TRUSTED = ['numpy single-axis indexing, basic scalar/slice indexing, ma.expand_dims/ma.concatenate, broadcasting assignment and C-order reshape are '
            'MODELLED (Model/Slice.v take_axis/seq_take/concat_rec/assign), tied to numpy 2.5 only by the correspondence',
@@ -25,14 +27,14 @@ ASSUMPTIONS = ['files are well formed (variable shapes equal their dimension len
                'attributes, unlimited flags, dtype and masked-ness are checked by the Python oracle only (they are copied, not computed)']
 TECHNIQUE = 'Coq proof (induction over shapes/selectors, flat C-order arrays) + vm_compute refutation witnesses + differential correspondence'
 LEVEL_TEXT = ('Theorems (Props/C02.v, all closed under the global context) about a Gallina model of sliceDimensions AS REPAIRED by '
-              'fixes/C02-slice-orthogonal-per-axis.patch, C02-zip-keep-masks.patch, C02-zip-with-ints.patch, over abstract cells (a mask is part of the '
+              'fixes/C02-slice-orthogonal-per-axis.patch, C02-zip-keep-masks.patch, C02-zip-with-ints.patch, C02-zip-empty-lists.patch, over abstract cells (a mask is part of the '
               'cell): selector normalisation stays in range (C02_selectors_in_range, C02_slice_indices_in_range); the orthogonal specification has the '
               'stated size/rank and element-wise meaning (C02_spec_elements, C02_spec_single_cell, C02_spec_shape); unselected variables are identical '
               '(C02_unselected_variable_identical); broadcast-or-reshape assignment keeps cell order when sizes agree (C02_assignment_keeps_cell_order); '
               'FULL STRENGTH: the per-axis selection loop is the orthogonal selection for every rank/shape/selector arrangement (C02_per_axis_loop, '
               'C02_slice_var) and the zipped point loop is the pointwise selection for the first list at any axis, with int selectors, masked or not '
-              '(C02_zip_var, C02_zip_spec_size). Remaining defect refuted by vm_compute and listed as known finding: two or more empty lists raise '
-              '(C02_zip_empty_lists_refuted). Tie H: whole-file model (impl_slice_file) vs library on every generated case incl. errors; the witnesses '
+              '(C02_zip_var incl. empty lists, C02_zip_spec_size), and for every well-formed file and every keyword list the whole-file model equals the '
+              'whole-file specification (C02_slice_file). No _refuted/_partial theorem remains. Tie H: whole-file model (impl_slice_file) vs library on every generated case incl. errors; the witnesses '
               'of the repaired defects run first from corpus/C02/.')
 LEVEL_NOTE = ('Trusted: Coq kernel + vm_compute; harness; numpy/CPython indexing semantics as modelled. IOAPI wrapper (metadata fix-ups) and '
               'multi-dimensional index arrays (newdims with ndim>1) not modelled.')
@@ -121,6 +123,9 @@ def gen(rng, n, tier):
         if r < 0.05 and tier != 'search':
             out.append(_gen_strform(rng))
             continue
+        if r < 0.12 and tier != 'search':
+            out.append(_gen_ioapi(rng))
+            continue
         dims, vs = _gen_file(rng, ndims=(rng.choice([3, 4, 5, 5]) if tier == 'search' and rng.random() < 0.6 else None))
         names = [d[0] for d in dims]
         lend = dict((d[0], d[1]) for d in dims)
@@ -159,7 +164,7 @@ def gen(rng, n, tier):
                     kws.append([a, {'l': _gen_list(rng, lend[a], ka)}])
                     kws.append([b, {'l': _gen_list(rng, lend[b], kb)}])
                     rng.shuffle(kws)
-            kind = 'malformed-' + how
+            kind = ('zip-' if how == 'empty-lists' else 'malformed-') + how
         elif r < 0.40:
             sub = rng.sample(names, rng.randint(0, len(names)))
             for dn in sub:
@@ -208,6 +213,53 @@ def gen(rng, n, tier):
                 kind = 'zip%d' % nl + ('+int' if any('i' in kw[1] for kw in kws) else '')
         out.append(dict(kind=kind, dims=dims, vars=vs, kws=kws))
     return out
+
+
+def _nonempty_sel(rng, kind, n, k=None):
+    while True:
+        sl = _sel(rng, kind, n, k)
+        if 's' not in sl or len(range(n)[slice(*sl['s'])]) > 0:
+            return sl
+
+
+def _gen_ioapi(rng):
+    """cmaqfiles ioapi_base.sliceDimensions (wrapper around the core method): 4-d (TSTEP,LAY,ROW,COL) and 2-d (ROW,COL)
+    float32 variables; non-empty selections only (the wrapper's metadata updates index the first selected element)"""
+    names = ['TSTEP', 'LAY', 'ROW', 'COL']
+    while True:
+        lens = [rng.choice([1, 2, 2, 3, 3, 4]) for _ in names]
+        if lens[0] * lens[1] * lens[2] * lens[3] <= 72:
+            break
+    dims = [[n, l, False] for n, l in zip(names, lens)]
+    lend = dict(zip(names, lens))
+    vs = [dict(name='O3', dims=list(names), masked=False)]
+    if rng.random() < 0.5:
+        vs.append(dict(name='NO2', dims=list(names), masked=False))
+    if rng.random() < 0.4:
+        vs.append(dict(name='HT', dims=['ROW', 'COL'], masked=False))
+    r = rng.random()
+    kws = []
+    if r < 0.35:
+        for dn in rng.sample(names, rng.randint(1, 4)):
+            kws.append([dn, _nonempty_sel(rng, rng.choice('iss'), lend[dn])])
+        sub = 'basic'
+    elif r < 0.65:
+        sub = rng.sample(names, rng.randint(1, 4))
+        j = rng.randrange(len(sub))
+        for i, dn in enumerate(sub):
+            kws.append([dn, _nonempty_sel(rng, 'l' if i == j else rng.choice('iss'), lend[dn])])
+        sub = 'onelist'
+    else:
+        pair = ['ROW', 'COL'] if rng.random() < 0.6 else rng.sample(names, 2)
+        k = rng.choice([1, 2, 3, 4])
+        for dn in pair:
+            kws.append([dn, {'l': _gen_list(rng, lend[dn], k)}])
+        for dn in names:
+            if dn not in pair and rng.random() < 0.5:
+                kws.append([dn, _nonempty_sel(rng, rng.choice('iss'), lend[dn])])
+        rng.shuffle(kws)
+        sub = 'zip'
+    return dict(kind='ioapi-' + sub, dims=dims, vars=vs, kws=kws)
 
 
 def _gen_strform(rng):
@@ -294,7 +346,33 @@ def _observe(o):
     return dict(dims=dims, vars=vs, gattrs=g)
 
 
+def _impl_ioapi(case):
+    import numpy as np
+    from PseudoNetCDF.cmaqfiles import ioapi_base
+    lend = dict((d[0], d[1]) for d in case['dims'])
+    arrs = {}
+    for vi, v in enumerate(case['vars']):
+        shape = tuple(lend[n] for n in v['dims'])
+        arrs[v['name']] = np.array(_cellvals(vi, int(np.prod(shape))), dtype='f').reshape(shape)
+    nl = lend['LAY']
+    f = ioapi_base.from_arrays(fileattrs=dict(VGLVLS=np.linspace(1, 0, nl + 1, dtype='f'), VGTOP=np.float32(5000),
+                                              XORIG=0., YORIG=0., XCELL=1000., YCELL=1000.), **arrs)
+    kw = {}
+    for dn, s in case['kws']:
+        kw[dn] = _pysel(s)
+    o = f.sliceDimensions(**kw)
+    obs = _observe(o)
+    # data part only: TFLAG / VAR / DATE-TIME and the IOAPI attributes are metadata (C10, C11)
+    obs['vars'] = [v for v in obs['vars'] if v['name'] != 'TFLAG']
+    obs['dims'] = [d for d in obs['dims'] if d[0] not in ('VAR', 'DATE-TIME')]
+    obs['gattrs'] = []
+    obs['cls'] = type(o).__name__
+    return obs
+
+
 def impl(case):
+    if case['kind'].startswith('ioapi'):
+        return _impl_ioapi(case)
     f = _build(case)
     if case['kind'] == 'strform':
         from PseudoNetCDF.core._functions import slice_dim
@@ -338,9 +416,40 @@ def _in_cells(case, vi, v):
     return vals
 
 
+def _strform_as_case(case, obs):
+    """slice_dim(f, 'dim,start,stop,stride') as the keyword selection dim=slice(...); only when a variable carries
+    the dimension (otherwise slice_dim leaves the dimension table alone)"""
+    if not any(case['dim'] in v['dims'] for v in case['vars']):
+        return None
+    return dict(case, kws=[[case['dim'], {'s': list(case['sl'])}]])
+
+
+def _ioapi_obs(case, obs):
+    """the wrapper deletes ROW and COL when both are replaced by POINTS and no variable keeps them: the dimension
+    table is metadata; give the model's view of the table the lengths the variables show"""
+    if 'raises' in obs:
+        return obs
+    have = dict((d[0], d) for d in obs['dims'])
+    sel = dict((dn, s) for dn, s in case['kws'])
+    dims = []
+    for n, l, u in case['dims']:
+        if n in have:
+            dims.append(have[n])
+        elif n in ('ROW', 'COL') and 'l' in sel.get(n, {}):
+            dims.append([n, len(sel[n]['l']), u])
+        else:
+            dims.append([n, 99, u])      # missing and not explained: makes F and S fail
+    dims += [d for d in obs['dims'] if d[0] == 'POINTS']
+    return dict(obs, dims=dims)
+
+
 def coq_term(case, obs):
     if case['kind'] == 'strform':
-        return None
+        case = _strform_as_case(case, obs)
+        if case is None:
+            return None
+    if case['kind'].startswith('ioapi'):
+        obs = _ioapi_obs(case, obs)
     names = [d[0] for d in case['dims']]
     nd = len(names)
     ids = dict((n, i) for i, n in enumerate(names))
@@ -361,7 +470,7 @@ def coq_term(case, obs):
                 ovs = '[' + '; '.join('(%s, %s)' % (C.natlist([ids[n] for n in v['dims']]), _ccells(v['data']))
                                       for v in obs['vars']) + ']'
                 o = 'Some (%s, %s)' % (C.natlist([d[1] for d in obs['dims']]), ovs)
-            except KeyError:
+            except (KeyError, ValueError):
                 o = 'Some ([], [])'
     return '(Case %s %s %s (%s))' % (dims, vs, kws, o)
 
@@ -444,14 +553,15 @@ def _expected(case):
 
 
 def _region_py(case):
-    ls = [s['l'] for dn, s in case['kws'] if 'l' in s]
-    return 1 if len(ls) > 1 and all(len(l) == 0 for l in ls) else 0
+    return 0
 
 
 def py_check(case, obs):
     import numpy as np
     if case['kind'] == 'strform':
         return _check_strform(case, obs)
+    if case['kind'].startswith('ioapi'):
+        return _check_ioapi(case, obs)
     exp = _expected(case)
     region = _region_py(case)
     if exp is None:
@@ -488,6 +598,36 @@ def py_check(case, obs):
     if obs['gattrs'] != [('NVAL', '7'), ('title', 'case file')] and obs['gattrs'] != [['NVAL', '7'], ['title', 'case file']]:
         why.append('global attributes %s' % obs['gattrs'])
     return dict(s_ok=not why, region=region, why='; '.join(why)[:600])
+
+
+def _check_ioapi(case, obs):
+    """data part of the IOAPI wrapper: every data variable is the orthogonal / zipped selection (float32 cells hold
+    exact integers); dimension lengths agree wherever the dimension still exists"""
+    exp = _expected(case)
+    if exp is None or 'raises' in obs:
+        return dict(s_ok=False, region=0, why='IOAPI sliceDimensions raised %s: %s' % (obs.get('raises'), obs.get('msg', '')[:100]))
+    why = []
+    have = dict((d[0], d[1]) for d in obs['dims'])
+    for n, l, u in exp['dims']:
+        if n in have and have[n] != l:
+            why.append('dimension %s length %s != %s' % (n, have[n], l))
+        if n not in have and any(n in ov['dims'] for ov in obs['vars']):
+            why.append('dimension %s missing but used' % n)
+    if [v['name'] for v in obs['vars']] != [v['name'] for v in case['vars']]:
+        why.append('data variables %s' % [v['name'] for v in obs['vars']])
+    for ov in obs['vars']:
+        if ov['name'] not in exp['vars']:
+            continue
+        edims, earr = exp['vars'][ov['name']]
+        if ov['dims'] != edims or ov['shape'] != list(earr.shape):
+            why.append('%s dims/shape %s %s != %s %s' % (ov['name'], ov['dims'], ov['shape'], edims, list(earr.shape)))
+        elif ov['data'] != earr.ravel().tolist():
+            why.append('%s cells differ: got %s expected %s' % (ov['name'], ov['data'][:12], earr.ravel().tolist()[:12]))
+        if ov['dtype'] != 'float32' or ov['masked']:
+            why.append('%s dtype/masked %s %s' % (ov['name'], ov['dtype'], ov['masked']))
+    if obs.get('cls') != 'ioapi_base':
+        why.append('result class %s' % obs.get('cls'))
+    return dict(s_ok=not why, region=0, why='; '.join(why)[:600])
 
 
 def _check_strform(case, obs):
@@ -530,7 +670,7 @@ def nontrivial(case, obs):
 
 
 def shrink(case):
-    if case['kind'] == 'strform':
+    if case['kind'] == 'strform' or case['kind'].startswith('ioapi'):
         return
     vs = case['vars']
     if len(vs) > 1:
